@@ -55,8 +55,6 @@
    then nobody is stuck on a lock); [quiescent_parked], [quiescent_app] (Proof/ChanWakeInv.v)
    = the I/O thread sleeps in select and every worker is parked on queue_cv / outbuf_lock
    (resp. or sits inside the application).  [c05_ok] is the predicate of the property.
-   [taint] is ghost state marking the runs in which the flush of a worker-side send_continue
-   raised (the finding of that name).
 
    ABSTRACTED.  Bytes are counts: [pend] is the number of bytes in the output
    buffers (a FIFO by C17), [total] the attribute total_outbufs_len (equal while connected:
@@ -118,7 +116,6 @@ Inductive iopc :=
 | IoSc1 (its : list item) (ww : bool)
 | IoScF (its : list item) (ww : bool)
 | IoScRel (its : list item) (ww : bool)
-| IoScX1 | IoScX2
 | IoRcvRel (ww : bool)
 | IoHW1 | IoHW2 | IoHW2b | IoTry
 | IoFlL | IoNfy | IoNfy2 | IoRelL | IoRelX | IoSetWc
@@ -160,13 +157,11 @@ Record state := mkSt {
   rx : list (list item); (* segments sent by the client and not yet received *)
   gone : bool;           (* the client closed its end *)
   io : iopc;
-  ws : list wpc;
-  taint : bool           (* ghost: the flush inside a worker's send_continue() raised on an open channel:
-                            service() is left by the exception, without its final pull_trigger *)
+  ws : list wpc
 }.
 
 Definition init (nw : nat) : state :=
-  mkSt false false true 0 0 0 false false None None false false 0 [] [] false IoR1 (repeat WAcq nw) false.
+  mkSt false false true 0 0 0 false false None None false false 0 [] [] false IoR1 (repeat WAcq nw).
 
 Inductive attr := AWc | ACwf | AConn | ATot | AReq | ARq.   (* ARq: self.request, only where it delimits an effect *)
 Inductive lk := LkO | LkR | LkD.
@@ -193,25 +188,24 @@ Inductive choice :=
 | CClientClose.
 
 (* ---- field updates ------------------------------------------------------- *)
-Definition set_wc (s : state) v : state := mkSt v (cwf s) (conn s) (total s) (pend s) (nreq s) (pend100 s) (sentc s) (olock s) (rlock s) (closed s) (pulled s) (queue s) (qwait s) (rx s) (gone s) (io s) (ws s) (taint s).
-Definition set_cwf (s : state) v : state := mkSt (wc s) v (conn s) (total s) (pend s) (nreq s) (pend100 s) (sentc s) (olock s) (rlock s) (closed s) (pulled s) (queue s) (qwait s) (rx s) (gone s) (io s) (ws s) (taint s).
-Definition set_conn (s : state) v : state := mkSt (wc s) (cwf s) v (total s) (pend s) (nreq s) (pend100 s) (sentc s) (olock s) (rlock s) (closed s) (pulled s) (queue s) (qwait s) (rx s) (gone s) (io s) (ws s) (taint s).
-Definition set_total (s : state) v : state := mkSt (wc s) (cwf s) (conn s) v (pend s) (nreq s) (pend100 s) (sentc s) (olock s) (rlock s) (closed s) (pulled s) (queue s) (qwait s) (rx s) (gone s) (io s) (ws s) (taint s).
-Definition set_pend (s : state) v : state := mkSt (wc s) (cwf s) (conn s) (total s) v (nreq s) (pend100 s) (sentc s) (olock s) (rlock s) (closed s) (pulled s) (queue s) (qwait s) (rx s) (gone s) (io s) (ws s) (taint s).
-Definition set_nreq (s : state) v : state := mkSt (wc s) (cwf s) (conn s) (total s) (pend s) v (pend100 s) (sentc s) (olock s) (rlock s) (closed s) (pulled s) (queue s) (qwait s) (rx s) (gone s) (io s) (ws s) (taint s).
-Definition set_pend100 (s : state) v : state := mkSt (wc s) (cwf s) (conn s) (total s) (pend s) (nreq s) v (sentc s) (olock s) (rlock s) (closed s) (pulled s) (queue s) (qwait s) (rx s) (gone s) (io s) (ws s) (taint s).
-Definition set_sentc (s : state) v : state := mkSt (wc s) (cwf s) (conn s) (total s) (pend s) (nreq s) (pend100 s) v (olock s) (rlock s) (closed s) (pulled s) (queue s) (qwait s) (rx s) (gone s) (io s) (ws s) (taint s).
-Definition set_olock (s : state) v : state := mkSt (wc s) (cwf s) (conn s) (total s) (pend s) (nreq s) (pend100 s) (sentc s) v (rlock s) (closed s) (pulled s) (queue s) (qwait s) (rx s) (gone s) (io s) (ws s) (taint s).
-Definition set_rlock (s : state) v : state := mkSt (wc s) (cwf s) (conn s) (total s) (pend s) (nreq s) (pend100 s) (sentc s) (olock s) v (closed s) (pulled s) (queue s) (qwait s) (rx s) (gone s) (io s) (ws s) (taint s).
-Definition set_closed (s : state) v : state := mkSt (wc s) (cwf s) (conn s) (total s) (pend s) (nreq s) (pend100 s) (sentc s) (olock s) (rlock s) v (pulled s) (queue s) (qwait s) (rx s) (gone s) (io s) (ws s) (taint s).
-Definition set_pulled (s : state) v : state := mkSt (wc s) (cwf s) (conn s) (total s) (pend s) (nreq s) (pend100 s) (sentc s) (olock s) (rlock s) (closed s) v (queue s) (qwait s) (rx s) (gone s) (io s) (ws s) (taint s).
-Definition set_queue (s : state) v : state := mkSt (wc s) (cwf s) (conn s) (total s) (pend s) (nreq s) (pend100 s) (sentc s) (olock s) (rlock s) (closed s) (pulled s) v (qwait s) (rx s) (gone s) (io s) (ws s) (taint s).
-Definition set_qwait (s : state) v : state := mkSt (wc s) (cwf s) (conn s) (total s) (pend s) (nreq s) (pend100 s) (sentc s) (olock s) (rlock s) (closed s) (pulled s) (queue s) v (rx s) (gone s) (io s) (ws s) (taint s).
-Definition set_rx (s : state) v : state := mkSt (wc s) (cwf s) (conn s) (total s) (pend s) (nreq s) (pend100 s) (sentc s) (olock s) (rlock s) (closed s) (pulled s) (queue s) (qwait s) v (gone s) (io s) (ws s) (taint s).
-Definition set_gone (s : state) v : state := mkSt (wc s) (cwf s) (conn s) (total s) (pend s) (nreq s) (pend100 s) (sentc s) (olock s) (rlock s) (closed s) (pulled s) (queue s) (qwait s) (rx s) v (io s) (ws s) (taint s).
-Definition set_io (s : state) v : state := mkSt (wc s) (cwf s) (conn s) (total s) (pend s) (nreq s) (pend100 s) (sentc s) (olock s) (rlock s) (closed s) (pulled s) (queue s) (qwait s) (rx s) (gone s) v (ws s) (taint s).
-Definition set_ws (s : state) v : state := mkSt (wc s) (cwf s) (conn s) (total s) (pend s) (nreq s) (pend100 s) (sentc s) (olock s) (rlock s) (closed s) (pulled s) (queue s) (qwait s) (rx s) (gone s) (io s) v (taint s).
-Definition set_taint (s : state) v : state := mkSt (wc s) (cwf s) (conn s) (total s) (pend s) (nreq s) (pend100 s) (sentc s) (olock s) (rlock s) (closed s) (pulled s) (queue s) (qwait s) (rx s) (gone s) (io s) (ws s) v.
+Definition set_wc (s : state) v : state := mkSt v (cwf s) (conn s) (total s) (pend s) (nreq s) (pend100 s) (sentc s) (olock s) (rlock s) (closed s) (pulled s) (queue s) (qwait s) (rx s) (gone s) (io s) (ws s).
+Definition set_cwf (s : state) v : state := mkSt (wc s) v (conn s) (total s) (pend s) (nreq s) (pend100 s) (sentc s) (olock s) (rlock s) (closed s) (pulled s) (queue s) (qwait s) (rx s) (gone s) (io s) (ws s).
+Definition set_conn (s : state) v : state := mkSt (wc s) (cwf s) v (total s) (pend s) (nreq s) (pend100 s) (sentc s) (olock s) (rlock s) (closed s) (pulled s) (queue s) (qwait s) (rx s) (gone s) (io s) (ws s).
+Definition set_total (s : state) v : state := mkSt (wc s) (cwf s) (conn s) v (pend s) (nreq s) (pend100 s) (sentc s) (olock s) (rlock s) (closed s) (pulled s) (queue s) (qwait s) (rx s) (gone s) (io s) (ws s).
+Definition set_pend (s : state) v : state := mkSt (wc s) (cwf s) (conn s) (total s) v (nreq s) (pend100 s) (sentc s) (olock s) (rlock s) (closed s) (pulled s) (queue s) (qwait s) (rx s) (gone s) (io s) (ws s).
+Definition set_nreq (s : state) v : state := mkSt (wc s) (cwf s) (conn s) (total s) (pend s) v (pend100 s) (sentc s) (olock s) (rlock s) (closed s) (pulled s) (queue s) (qwait s) (rx s) (gone s) (io s) (ws s).
+Definition set_pend100 (s : state) v : state := mkSt (wc s) (cwf s) (conn s) (total s) (pend s) (nreq s) v (sentc s) (olock s) (rlock s) (closed s) (pulled s) (queue s) (qwait s) (rx s) (gone s) (io s) (ws s).
+Definition set_sentc (s : state) v : state := mkSt (wc s) (cwf s) (conn s) (total s) (pend s) (nreq s) (pend100 s) v (olock s) (rlock s) (closed s) (pulled s) (queue s) (qwait s) (rx s) (gone s) (io s) (ws s).
+Definition set_olock (s : state) v : state := mkSt (wc s) (cwf s) (conn s) (total s) (pend s) (nreq s) (pend100 s) (sentc s) v (rlock s) (closed s) (pulled s) (queue s) (qwait s) (rx s) (gone s) (io s) (ws s).
+Definition set_rlock (s : state) v : state := mkSt (wc s) (cwf s) (conn s) (total s) (pend s) (nreq s) (pend100 s) (sentc s) (olock s) v (closed s) (pulled s) (queue s) (qwait s) (rx s) (gone s) (io s) (ws s).
+Definition set_closed (s : state) v : state := mkSt (wc s) (cwf s) (conn s) (total s) (pend s) (nreq s) (pend100 s) (sentc s) (olock s) (rlock s) v (pulled s) (queue s) (qwait s) (rx s) (gone s) (io s) (ws s).
+Definition set_pulled (s : state) v : state := mkSt (wc s) (cwf s) (conn s) (total s) (pend s) (nreq s) (pend100 s) (sentc s) (olock s) (rlock s) (closed s) v (queue s) (qwait s) (rx s) (gone s) (io s) (ws s).
+Definition set_queue (s : state) v : state := mkSt (wc s) (cwf s) (conn s) (total s) (pend s) (nreq s) (pend100 s) (sentc s) (olock s) (rlock s) (closed s) (pulled s) v (qwait s) (rx s) (gone s) (io s) (ws s).
+Definition set_qwait (s : state) v : state := mkSt (wc s) (cwf s) (conn s) (total s) (pend s) (nreq s) (pend100 s) (sentc s) (olock s) (rlock s) (closed s) (pulled s) (queue s) v (rx s) (gone s) (io s) (ws s).
+Definition set_rx (s : state) v : state := mkSt (wc s) (cwf s) (conn s) (total s) (pend s) (nreq s) (pend100 s) (sentc s) (olock s) (rlock s) (closed s) (pulled s) (queue s) (qwait s) v (gone s) (io s) (ws s).
+Definition set_gone (s : state) v : state := mkSt (wc s) (cwf s) (conn s) (total s) (pend s) (nreq s) (pend100 s) (sentc s) (olock s) (rlock s) (closed s) (pulled s) (queue s) (qwait s) (rx s) v (io s) (ws s).
+Definition set_io (s : state) v : state := mkSt (wc s) (cwf s) (conn s) (total s) (pend s) (nreq s) (pend100 s) (sentc s) (olock s) (rlock s) (closed s) (pulled s) (queue s) (qwait s) (rx s) (gone s) v (ws s).
+Definition set_ws (s : state) v : state := mkSt (wc s) (cwf s) (conn s) (total s) (pend s) (nreq s) (pend100 s) (sentc s) (olock s) (rlock s) (closed s) (pulled s) (queue s) (qwait s) (rx s) (gone s) (io s) v.
 
 (* ---- helpers ------------------------------------------------------------- *)
 Fixpoint upd {A} (n : nat) (v : A) (l : list A) : list A :=
@@ -342,18 +336,16 @@ Definition step_io (c : cfg) (s : state) (ch : choice) : option (state * list la
   | IoScF its ww, CIo => if pend s <=? 0 then ret (goio s (IoScRel its ww)) [] else None
   | IoScF its ww, CIoSend r =>
       if pend s <=? 0 then None else
-      if closed s then match r with SErr => ret (goio s IoScX1) [] | _ => None end else
+      (* the flush is wrapped by _flush_exception since 48f7fa0: an error sets will_close *)
+      if closed s then match r with SErr => ret (goio (set_wc s true) (IoScRel its ww)) [LW AWc] | _ => None end else
       match r with
       | SOk n => if (1 <=? n) && (n <=? pend s)
                  then ret (set_total (set_pend s (pend s - n)) (total s - n)) l_flush_ok else None
       | SZero => ret (goio s (IoScRel its ww)) [LSend]
       | SDisc _ => ret (goio s (IoHCb (HcSc its ww))) [LSend]
-      | SErr => ret (goio s IoScX1) [LSend]
+      | SErr => ret (goio (set_wc s true) (IoScRel its ww)) [LSend; LW AWc]
       end
   | IoScRel its ww, CIo => ret (goio (set_olock s None) (IoRcvLoop its ww)) [LRel LkO]
-  | IoScX1, CIo => ret (goio (set_olock s None) IoScX2) [LRel LkO]
-  | IoScX2, CIo =>       (* wasyncore.read -> handle_error: repr(self) reads connected; handle_close *)
-      ret (goio (set_rlock s None) (IoHC (HcRead false false))) [LRel LkR; LR AConn]
   (* handle_write_event (R connected) -> handle_write *)
   (* both branches flush through _flush_some_if_lockable since 8bcf05e *)
   | IoHW1, CIo => ret (goio s (if Nat.eqb (nreq s) 0 then IoTry else IoHW2)) [LR AConn; LR AReq]
@@ -509,12 +501,12 @@ Definition step_w (c : cfg) (s : state) (i : nat) (ch : choice) : option (state 
   | WScF, CW _ => if pend s <=? 0 then ret (go WScRel) [] else None
   | WScF, CWSend _ r =>
       if pend s <=? 0 then None else
-      if closed s then match r with SErr => ret (go WScX) [] | _ => None end else
+      if closed s then match r with SErr => ret (setw (set_wc s true) i WScRel) [LW AWc] | _ => None end else
       match r with
       | SOk n => if (1 <=? n) && (n <=? pend s)
                  then ret (set_total (set_pend s (pend s - n)) (total s - n)) l_flush_ok else None
       | SZero | SDisc _ => ret (go WScRel) [LSend]   (* do_close=False since da3bf3a *)
-      | SErr => ret (setw (set_taint s true) i WScX) [LSend]   (* not caught: service() is aborted *)
+      | SErr => ret (setw (set_wc s true) i WScRel) [LSend; LW AWc]   (* _flush_exception since 48f7fa0 *)
       end
   | WScRel, CW _ => ret (setw (set_olock s None) i WK7) [LRel LkO]
   | WScX, CW _ => ret (setw (set_olock s None) i WScX2) [LRel LkO]
@@ -575,8 +567,6 @@ Definition closing_closed (s : state) : bool := negb (wc s || cwf s) || closed s
 Definition c05_ok (s : state) : bool :=
   no_pending_output s && no_unserved_request s && no_producer_parked s && closing_closed s.
 
-(* the class of the known finding, as a predicate on the state *)
-Definition in_kf_class (s : state) : bool := taint s.
 
 Definition is_env (ch : choice) : bool :=
   match ch with CClient _ | CClientClose => true | _ => false end.
